@@ -74,6 +74,12 @@ fn main() {
             inst::cleanup_scratch();
             c
         }
+        "c04-child" => {
+            if args.len() < 6 {
+                usage();
+            }
+            props::c04::child_main(&args[2], args[3].parse().unwrap_or(0), args[4].parse().unwrap_or(0), &args[5])
+        }
         "golden-make" => {
             props::c02::golden_make();
             inst::cleanup_scratch();
